@@ -14,6 +14,7 @@ package main
 // versions (checked greedily — exact).  Plus the direct rule for conditional writes: applied  <=>  preconditions hold on
 // state(id-1).  A small WGL search (no use of the ids) cross-checks the checker on the small single-key histories and on
 // seeded non-linearizable histories.
+// Multi-key reads as atomic snapshots (group probes, per-entry validity intervals): c06snap.go.
 // CORRESPONDENCE: the writes (in id order, with their preconditions) and the reads (at the version the oracle assigned)
 // are replayed through the Lean model (`c06 …`), which must reproduce every verdict and every answer.
 
@@ -24,6 +25,7 @@ import (
 	"errors"
 	"fmt"
 	"math"
+	"os"
 	"sort"
 	"strings"
 	"sync"
@@ -66,8 +68,22 @@ type c6rec struct {
 	ID      uint64  // applied writes
 	Entries []c5row // store-level entries of an applied write
 	Res     string  // canonical answer of a read
+	Rows    []c6row // structured answer of a multi-key read (input of the atomic-snapshot oracle, c06snap.go)
+	N       int     // answer of Count
+	ZAll    bool    // execall: one ZAdd (set Set, score Score+i) for EVERY key written, not only for the first
 	// assigned by the oracle
-	Ver int
+	Ver    int
+	Lo, Hi uint64 // real-time window of versions: last write returned before the call .. last write invoked before the return
+}
+
+// one entry of a multi-key answer, store-level
+type c6row struct {
+	Key   []byte // store-level key of the entry
+	Tx    uint64
+	Val   []byte // store-level value
+	Del   bool   // History only
+	ZKey  []byte // ZScan: the sorted-set index key of the member
+	IsRef bool   // the entry was reached through a reference
 }
 
 func (o *c6rec) isWrite() bool {
@@ -82,6 +98,12 @@ func (o *c6rec) String() string {
 	var b strings.Builder
 	fmt.Fprintf(&b, "c%d [%d,%d] %s", o.Client, o.Call, o.Ret, o.Kind)
 	for i, k := range o.Keys {
+		if len(o.Keys) > 12 && i >= 4 && i < len(o.Keys)-2 {
+			if i == 4 {
+				fmt.Fprintf(&b, " …(%d keys)…", len(o.Keys)-6)
+			}
+			continue
+		}
 		fmt.Fprintf(&b, " %s", k)
 		if i < len(o.Vals) {
 			fmt.Fprintf(&b, "=%s", o.Vals[i])
@@ -100,6 +122,8 @@ func (o *c6rec) String() string {
 		fmt.Fprintf(&b, " -> id %d", o.ID)
 	} else if o.Err != "" {
 		fmt.Fprintf(&b, " -> err:%s", o.Err)
+	} else if len(o.Res) > 600 {
+		fmt.Fprintf(&b, " -> %s…(%d bytes)", o.Res[:600], len(o.Res))
 	} else {
 		fmt.Fprintf(&b, " -> %s", o.Res)
 	}
@@ -357,26 +381,7 @@ func (m *c6model) observe(t uint64, o *c6rec) string {
 		}
 		return "es " + strings.Join(ss, ";")
 	case "zscan":
-		zs := m.zmembers(t, o.Set)
-		if o.Desc {
-			for i, j := 0, len(zs)-1; i < j; i, j = i+1, j-1 {
-				zs[i], zs[j] = zs[j], zs[i]
-			}
-		}
-		var ss []string
-		for _, z := range zs {
-			var v *c5ver
-			if z.atTx == 0 {
-				v = m.st.at(t, z.key)
-			} else {
-				v = m.exact(z.atTx, z.key)
-			}
-			if v == nil || v.Del {
-				continue
-			}
-			ss = append(ss, fmt.Sprintf("%s@%x:%s", hx.Hex(z.key), math.Float64bits(z.score), verStr(z.key, v)))
-		}
-		return "zs " + strings.Join(ss, ";")
+		return m.observeZ(t, t, o)
 	case "history":
 		h := m.st.hist[string(sk(o.Keys[0]))]
 		n := m.count(t, sk(o.Keys[0]))
@@ -422,9 +427,11 @@ func (m *c6model) observe(t uint64, o *c6rec) string {
 		}
 		return "err:pre"
 	case "del":
-		v := m.st.at(t, sk(o.Keys[0]))
-		if v == nil || v.Del {
-			return "err:nf"
+		for _, k := range o.Keys { // every key of a (multi-key) Delete must exist
+			v := m.st.at(t, sk(k))
+			if v == nil || v.Del {
+				return "err:nf"
+			}
 		}
 		return ""
 	case "zadd":
@@ -453,6 +460,31 @@ func (m *c6model) observe(t uint64, o *c6rec) string {
 	return "?"
 }
 
+// observeZ: the answer of ZScan when the members are read on state(t1) and their entries on state(t2).  The code takes
+// TWO snapshots (sorted-set index, then key index); the specification is t1 = t2.
+func (m *c6model) observeZ(t1, t2 uint64, o *c6rec) string {
+	zs := m.zmembers(t1, o.Set)
+	if o.Desc {
+		for i, j := 0, len(zs)-1; i < j; i, j = i+1, j-1 {
+			zs[i], zs[j] = zs[j], zs[i]
+		}
+	}
+	var ss []string
+	for _, z := range zs {
+		var v *c5ver
+		if z.atTx == 0 {
+			v = m.st.at(t2, z.key)
+		} else {
+			v = m.exact(z.atTx, z.key)
+		}
+		if v == nil || v.Del {
+			continue
+		}
+		ss = append(ss, fmt.Sprintf("%s@%x:%s", hx.Hex(z.key), math.Float64bits(z.score), verStr(z.key, v)))
+	}
+	return "zs " + strings.Join(ss, ";")
+}
+
 func (o *c6rec) observed() string {
 	if o.Err != "" {
 		return "err:" + o.Err
@@ -466,6 +498,10 @@ type c6verdict struct {
 	Sig, Desc string
 	Ret       int64 // return time of the operation the verdict is about (0 = not about one operation)
 }
+
+// c6diagCap: after this many verdicts of one c6check run the search for "where else does the answer match" (a scan over
+// ALL versions, only needed to tell stale from never-existed) is restricted to 64 versions around the window.
+var c6diagCap = 1 << 30
 
 func c6check(recs []*c6rec, log map[uint64][]c5row) (*c6model, []c6verdict) {
 	st, max := newC5State(log)
@@ -535,6 +571,7 @@ func c6check(recs []*c6rec, log map[uint64][]c5row) (*c6model, []c6verdict) {
 		if o.SinceTx > lo {
 			lo = o.SinceTx
 		}
+		o.Lo, o.Hi = lo, hi
 		for rp < len(obsByRet) && obsByRet[rp].Ret < o.Call {
 			if v := obsByRet[rp].Ver; v >= 0 && uint64(v) > runMax {
 				runMax = uint64(v)
@@ -563,12 +600,23 @@ func c6check(recs []*c6rec, log map[uint64][]c5row) (*c6model, []c6verdict) {
 			continue
 		}
 		// no version in the window explains the observation: where (if anywhere) does it match?
-		below, anyAt := -1, -1
-		for t := uint64(0); t <= max; t++ {
+		below, anyAt, inWin := -1, -1, false
+		from, to := uint64(0), max
+		if len(out) >= c6diagCap {
+			if lo > 64 {
+				from = lo - 64
+			}
+			if hi+64 < max {
+				to = hi + 64
+			}
+		}
+		for t := from; t <= to; t++ {
 			if m.observe(t, o) == want {
 				anyAt = int(t)
 				if t < lo {
 					below = int(t)
+				} else if t <= hi {
+					inWin = true // explained by a state of the real-time window, but older than what an earlier read saw
 				}
 			}
 		}
@@ -577,11 +625,33 @@ func c6check(recs []*c6rec, log map[uint64][]c5row) (*c6model, []c6verdict) {
 			out = append(out, c6verdict{"C06:precondition:rejected-when-true", fmt.Sprintf("%s rejected although the preconditions hold on every state in [%d,%d]", o, floor, hi), o.Ret})
 		case below >= 0:
 			out = append(out, c6verdict{"C06:read-after-write:stale", fmt.Sprintf("%s matches state(%d), but write %d had returned before the call", o, below, lo), o.Ret})
+		case o.Kind == "zscan" && o.Err == "" && !inWin && m.zTwoSnapshots(o, lo, hi) != "":
+			// ZScan takes two snapshots (sorted-set index, then key index): members of one state with the entries of another.
+			// In the code as it is this cannot happen: ZScan holds d.mutex.RLock for the whole call and every operation that
+			// adds a member (ZAdd, ExecAll) takes d.mutex.Lock, so the member set is the same in both snapshots (30 s of
+			// 8 readers against a writer adding one member per transaction: 0 cases).  The class is kept to name the cause
+			// should that exclusion ever go away.
+			out = append(out, c6verdict{"C06:atomic-snapshot:zscan:members-and-entries-from-two-snapshots", fmt.Sprintf("%s matches no single state in [%d,%d], but it is %s", o, floor, hi, m.zTwoSnapshots(o, lo, hi)), o.Ret})
 		default:
 			out = append(out, c6verdict{"C06:linearizability:violation" + c6classify(o), fmt.Sprintf("%s matches no state in [%d,%d] (lower bound from completed writes %d, from earlier reads %d; it matches state %d)", o, floor, hi, lo, runMax, anyAt), o.Ret})
 		}
 	}
 	return m, out
+}
+
+// zTwoSnapshots: is the ZScan answer the members of state(t1) with the entries of state(t2) for SOME t1 ≠ t2 in the window?
+func (m *c6model) zTwoSnapshots(o *c6rec, lo, hi uint64) string {
+	if hi > lo+200 {
+		hi = lo + 200
+	}
+	for t1 := lo; t1 <= hi; t1++ {
+		for t2 := lo; t2 <= hi; t2++ {
+			if t1 != t2 && m.observeZ(t1, t2, o) == o.Res {
+				return fmt.Sprintf("the members of state(%d) with the entries of state(%d)", t1, t2)
+			}
+		}
+	}
+	return ""
 }
 
 // a Get that went through a reference is two index reads in the code: flagged separately
@@ -712,15 +782,23 @@ func (r *c6run) do(o *c6rec) {
 			es = append(es, database.EncodeEntrySpec(k, nil, o.Vals[i]))
 		}
 		if len(o.Set) > 0 {
-			// a sorted-set entry for the first key written in the same transaction (no existence check needed)
-			req.Operations = append(req.Operations, &schema.Op{Operation: &schema.Op_ZAdd{ZAdd: &schema.ZAddRequest{Set: o.Set, Score: o.Score, Key: o.Keys[0]}}})
-			es = append(es, database.EncodeZAdd(o.Set, o.Score, database.EncodeKey(o.Keys[0]), 0))
+			// a sorted-set entry for the first key (ZAll: for every key) written in the same transaction (no existence check needed)
+			for i, k := range o.Keys {
+				if i > 0 && !o.ZAll {
+					break
+				}
+				req.Operations = append(req.Operations, &schema.Op{Operation: &schema.Op_ZAdd{ZAdd: &schema.ZAddRequest{Set: o.Set, Score: o.Score + float64(i), Key: k}}})
+				es = append(es, database.EncodeZAdd(o.Set, o.Score+float64(i), database.EncodeKey(k), 0))
+			}
 		}
 		hdr, err = d.ExecAll(ctx, req)
 		o.Entries = specEntries(es...)
 	case "del":
-		hdr, err = d.Delete(ctx, &schema.DeleteKeysRequest{Keys: [][]byte{o.Keys[0]}})
-		o.Entries = []c5row{{Key: sk(o.Keys[0]), Del: true}}
+		hdr, err = d.Delete(ctx, &schema.DeleteKeysRequest{Keys: o.Keys})
+		o.Entries = nil
+		for _, k := range o.Keys {
+			o.Entries = append(o.Entries, c5row{Key: sk(k), Del: true})
+		}
 	case "setref":
 		hdr, err = d.SetReference(ctx, &schema.ReferenceRequest{Key: o.Keys[0], ReferencedKey: o.Keys[1]})
 		o.Entries = specEntries(database.EncodeReference(o.Keys[0], nil, o.Keys[1], 0))
@@ -738,6 +816,7 @@ func (r *c6run) do(o *c6rec) {
 		es, err = d.GetAll(ctx, &schema.KeyListRequest{Keys: o.Keys, SinceTx: o.SinceTx})
 		if err == nil {
 			o.Res = c6entriesStr(es.Entries)
+			o.Rows = c6rowsOf(es.Entries)
 		}
 	case "scan":
 		var es *schema.Entries
@@ -745,6 +824,7 @@ func (r *c6run) do(o *c6rec) {
 			InclusiveSeek: o.Spec.InclSeek, InclusiveEnd: o.Spec.InclEnd, Limit: uint64(o.Limit), Offset: uint64(o.Offset)})
 		if err == nil {
 			o.Res = c6entriesStr(es.Entries)
+			o.Rows = c6rowsOf(es.Entries)
 		}
 	case "zscan":
 		var zs *schema.ZEntries
@@ -753,6 +833,8 @@ func (r *c6run) do(o *c6rec) {
 			var ss []string
 			for _, z := range zs.Entries {
 				ss = append(ss, fmt.Sprintf("%s@%x:%s:%d:%s:0", hx.Hex(sk(z.Key)), math.Float64bits(z.Score), hx.Hex(sk(z.Entry.Key)), z.Entry.Tx, hx.Hex(sv(z.Entry.Value))))
+				o.Rows = append(o.Rows, c6row{Key: sk(z.Entry.Key), Tx: z.Entry.Tx, Val: sv(z.Entry.Value),
+					ZKey: database.EncodeZAdd(o.Set, z.Score, sk(z.Key), z.AtTx).Key})
 			}
 			o.Res = "zs " + strings.Join(ss, ";")
 		}
@@ -772,6 +854,7 @@ func (r *c6run) do(o *c6rec) {
 					sval = nil
 				}
 				ss = append(ss, fmt.Sprintf("%s:%d:%s:%s", hx.Hex(sk(e.Key)), e.Tx, hx.Hex(sval), b01(del)))
+				o.Rows = append(o.Rows, c6row{Key: sk(e.Key), Tx: e.Tx, Val: sval, Del: del})
 			}
 			if len(ss) == 0 {
 				o.Res = "es _"
@@ -784,6 +867,7 @@ func (r *c6run) do(o *c6rec) {
 		c, err = d.Count(ctx, &schema.KeyPrefix{Prefix: o.Keys[0]})
 		if err == nil {
 			o.Res = fmt.Sprintf("n %d", c.Count)
+			o.N = int(c.Count)
 		}
 	}
 	o.Ret = r.tick()
@@ -794,6 +878,14 @@ func (r *c6run) do(o *c6rec) {
 }
 
 func isRefProto(e *schema.Entry) bool { return false }
+
+func c6rowsOf(es []*schema.Entry) []c6row {
+	out := make([]c6row, len(es))
+	for i, e := range es {
+		out[i] = c6row{Key: sk(e.Key), Tx: e.Tx, Val: sv(e.Value), IsRef: e.ReferencedBy != nil}
+	}
+	return out
+}
 
 // ---------- generation ----------
 
@@ -816,6 +908,19 @@ func newC6Gen(rng *hx.Rng) *c6gen {
 }
 
 func (g *c6gen) key() []byte { return g.keys[g.rng.Intn(len(g.keys))] }
+
+// distinct: n different keys in random order (n capped by the number of keys)
+func (g *c6gen) distinct(n int) [][]byte {
+	ks := append([][]byte{}, g.keys...)
+	for i := len(ks) - 1; i > 0; i-- {
+		j := g.rng.Intn(i + 1)
+		ks[i], ks[j] = ks[j], ks[i]
+	}
+	if n > len(ks) {
+		n = len(ks)
+	}
+	return ks[:n]
+}
 
 func (g *c6gen) pres(hint int) []c6pre {
 	var ps []c6pre
@@ -851,15 +956,16 @@ func (g *c6gen) op(client, seq, hint int) *c6rec {
 		o.Kind, o.Keys, o.Vals = "set", [][]byte{g.key()}, [][]byte{val}
 	case x < 22: // conditional set
 		o.Kind, o.Keys, o.Vals, o.Pre = "set", [][]byte{g.key()}, [][]byte{val}, g.pres(hint)
-	case x < 28: // multi-key set
-		a, b := g.key(), g.key()
-		if bytes.Equal(a, b) {
-			o.Kind, o.Keys, o.Vals = "set", [][]byte{a}, [][]byte{val}
-		} else {
-			o.Kind, o.Keys, o.Vals = "set", [][]byte{a, b}, [][]byte{val, val}
+	case x < 28: // multi-key set: 2 .. all keys get the same marker in ONE transaction
+		o.Kind, o.Keys = "set", g.distinct(2+g.rng.Intn(len(g.keys)))
+		for range o.Keys {
+			o.Vals = append(o.Vals, val)
 		}
 	case x < 34:
-		o.Kind, o.Keys, o.Vals = "execall", [][]byte{g.key()}, [][]byte{val}
+		o.Kind, o.Keys = "execall", g.distinct(1+g.rng.Intn(3)*g.rng.Intn(2))
+		for range o.Keys {
+			o.Vals = append(o.Vals, val)
+		}
 		if g.rng.Chance(50) {
 			o.Pre = g.pres(hint)
 		}
@@ -868,6 +974,9 @@ func (g *c6gen) op(client, seq, hint int) *c6rec {
 		}
 	case x < 41:
 		o.Kind, o.Keys = "del", [][]byte{g.key()}
+		if g.rng.Chance(20) {
+			o.Keys = g.distinct(2)
+		}
 	case x < 46:
 		o.Kind, o.Keys = "setref", [][]byte{g.refs[g.rng.Intn(len(g.refs))], g.key()}
 	case x < 50:
@@ -889,8 +998,12 @@ func (g *c6gen) op(client, seq, hint int) *c6rec {
 		o.Kind, o.Keys = "get", [][]byte{g.refs[g.rng.Intn(len(g.refs))]}
 	case x < 77:
 		o.Kind = "getall"
-		for n := 2 + g.rng.Intn(3); n > 0; n-- {
-			o.Keys = append(o.Keys, g.key())
+		if g.rng.Chance(45) {
+			o.Keys = g.distinct(len(g.keys)) // every key, random order
+		} else {
+			for n := 2 + g.rng.Intn(3); n > 0; n-- {
+				o.Keys = append(o.Keys, g.key())
+			}
 		}
 		if g.rng.Chance(20) {
 			o.Keys = append(o.Keys, g.refs[0])
@@ -1016,6 +1129,18 @@ func runC06History(r *hx.Result, rng *hx.Rng, name string, clients, opsPer int, 
 	}
 	m, verdicts := c6check(recs, run.log)
 	r.OracleChecks += len(recs)
+	flagged := map[int64]string{}
+	for _, v := range verdicts {
+		if v.Ret != 0 {
+			flagged[v.Ret] = v.Sig
+		}
+	}
+	sverdicts, sst := c6snapshotOracle(m, recs, flagged)
+	verdicts = append(verdicts, sverdicts...)
+	r.OracleChecks += sst.Checked
+	r.CountN("snapshot-oracle.checked", sst.Checked)
+	r.CountN("snapshot-oracle.window>1-version", sst.Nontrivial)
+	r.CountN("history.multi-key-reads-with-multi-key-write-inside-window", sst.Concurrent)
 	for _, v := range verdicts {
 		sig := v.Sig
 		if run.afterCompaction(v.Ret) {
@@ -1048,9 +1173,17 @@ func runC06History(r *hx.Result, rng *hx.Rng, name string, clients, opsPer int, 
 			}
 		}
 	}
-	// correspondence with the Lean model
+	c6corrHistory(r, m, recs, run.log)
+	if r.Case()%8 == 0 {
+		return r.Flush()
+	}
+	return nil
+}
+
+// correspondence with the Lean model: the writes in id order (with preconditions), the reads at the version c6check assigned
+func c6corrHistory(r *hx.Result, m *c6model, recs []*c6rec, log map[uint64][]c5row) {
 	universe := map[string]bool{}
-	for _, es := range run.log {
+	for _, es := range log {
 		for _, e := range es {
 			universe[string(e.Key)] = true
 		}
@@ -1089,7 +1222,15 @@ func runC06History(r *hx.Result, rng *hx.Rng, name string, clients, opsPer int, 
 			if w == nil {
 				break
 			}
-			r.Corr(fmt.Sprintf("c06 write %s %s", c5EntriesTok(w.Entries), preTok(w.Pre)), fmt.Sprintf("applied %d", id))
+			pre := w.Pre
+			if len(pre) > 0 && !m.presHold(id-1, pre) {
+				// applied although a precondition is false on state(id-1): c6check has reported it (applied-when-false; on the
+				// unchanged tree only after an index compaction, a known finding).  The sequential model would reject the
+				// write and every later id would shift, so the log is kept aligned by replaying it unconditionally.
+				pre = nil
+				r.Count("corr.applied-when-false-replayed-unconditionally")
+			}
+			r.Corr(fmt.Sprintf("c06 write %s %s", c5EntriesTok(w.Entries), preTok(pre)), fmt.Sprintf("applied %d", id))
 		}
 		for _, o := range rejectedAt[int(id)] {
 			r.Corr(fmt.Sprintf("c06 write %s %s", c5EntriesTok(o.Entries), preTok(o.Pre)), fmt.Sprintf("rejected %d", id))
@@ -1113,6 +1254,9 @@ func runC06History(r *hx.Result, rng *hx.Rng, name string, clients, opsPer int, 
 				ks = append(ks, sk(k))
 			}
 			r.Corr(fmt.Sprintf("c06 read %d getall %s", o.Ver, hx.Csv(ks)), o.Res)
+			// the same call through the STEP model (Mvcc/Linearize.lean: snapshot, then one lookup per key) with the index
+			// advancing to the end of the call's window between the snapshot and the lookups
+			r.Corr(fmt.Sprintf("c06 getall-steps %d %d %s", o.Ver, o.Hi, hx.Csv(ks)), o.Res)
 		case "scan":
 			if len(o.Spec.Pfx) > 0 { // prefix k: no reference keys in range
 				sp := o.Spec
@@ -1138,10 +1282,6 @@ func runC06History(r *hx.Result, rng *hx.Rng, name string, clients, opsPer int, 
 			r.Corr(fmt.Sprintf("c06 read %d count %s", o.Ver, hx.Hex(sk(o.Keys[0]))), o.Res)
 		}
 	}
-	if r.Case()%8 == 0 {
-		return r.Flush()
-	}
-	return nil
 }
 
 // ---------- the reference probe: Get through a re-pointed reference (two index reads in getAtTx/resolveValue) ----------
@@ -1306,7 +1446,7 @@ func c6wglCross(recs []*c6rec) (ok bool, used bool) {
 		switch {
 		case o.Kind == "set" && len(o.Keys) == 1 && len(o.Pre) == 0 && o.Err == "":
 			ops = append(ops, wglOp{o.Call, o.Ret, "w", string(o.Keys[0]), string(o.Vals[0]), false})
-		case o.Kind == "del" && (o.Err == "" || o.Err == "nf"):
+		case o.Kind == "del" && len(o.Keys) == 1 && (o.Err == "" || o.Err == "nf"):
 			ops = append(ops, wglOp{o.Call, o.Ret, "d", string(o.Keys[0]), "", o.Err == "nf"})
 		case o.Kind == "get" && o.AtTx == 0 && o.AtRev == 0 && (o.Err == "" || o.Err == "nf") && bytes.HasPrefix(o.Keys[0], []byte("k")):
 			val := ""
@@ -1461,12 +1601,35 @@ func c6SelfTest(r *hx.Result) {
 func runC06(r *hx.Result, rng *hx.Rng, thorough bool, replay string) error {
 	r.Rule = "evaluation = one concurrent client history (3..6 goroutines, 20..70 operations) on a real pkg/database DB with index flush/compaction " +
 		"running, checked for linearizability against the sequential KV model (exact, using the returned tx ids) and for the conditional-write rule; " +
-		"non-trivial = the history contains writes overlapping other operations"
+		"non-trivial = the history contains writes overlapping other operations; plus group probes (c06snap.go): writers rewrite groups of 6..280 keys with one " +
+		"transaction per round, readers issue every multi-key read over the groups, each answer must be the committed state after ONE tx id of its " +
+		"real-time window (atomic-snapshot oracle); non-trivial = a multi-key write lies inside the window of a multi-key read"
 	c6SelfTest(r)
+	c6SnapSelfTest(r)
+	// group probes first (multi-key reads as atomic snapshots): a wide one (oracles only) and a narrow one that is also
+	// replayed through the Lean model
+	wide := c6probeCfg{Name: "groupprobe-wide", K: 40 + rng.Intn(5)*60, Writers: 2, Readers: 5, Budget: 7 * time.Second, MaxOps: 2500, MaxTx: 1500}
+	narrow := c6probeCfg{Name: "groupprobe-narrow", K: 6 + rng.Intn(6), Writers: 2, Readers: 4, Budget: 2 * time.Second, MaxOps: 500, MaxTx: 120, Lean: true}
+	if thorough {
+		wide.Budget, wide.MaxOps, wide.MaxTx = 25*time.Second, 10000, 5000
+		narrow.Budget, narrow.MaxOps, narrow.MaxTx = 5*time.Second, 1200, 250
+	}
+	for i := 0; i < 1 || (thorough && i < 3); i++ {
+		if err := runC06GroupProbe(r, rng.Fork(), wide); err != nil {
+			return err
+		}
+		if err := runC06GroupProbe(r, rng.Fork(), narrow); err != nil {
+			return err
+		}
+		wide.K = 40 + rng.Intn(5)*60
+	}
+	if os.Getenv("VH_C06_PART") == "probes" { // development aid: only the multi-key-read probes
+		return r.Flush()
+	}
 	n := 60
 	budget := 55 * time.Second
 	if thorough {
-		n, budget = 1500, 11*time.Minute
+		n, budget = 1500, 10*time.Minute
 	}
 	deadline := time.Now().Add(budget)
 	for i := 0; i < n && time.Now().Before(deadline); i++ {
